@@ -68,6 +68,7 @@ def passes (env : Env) : Step → Bool
   | .lookup => env.found
   | .access => !env.denied
   | .auth => env.authorized
+  | .redirect => !env.redirect
   | .upstream => true
 
 theorem beforeUpstream_cons (s : Step) (ss : List Step) (h : s ≠ .upstream) :
@@ -111,5 +112,83 @@ theorem runGate_contact (env : Env) (ss : List Step) (h : (runGate env ss false)
         · simpa [passes] using hf
         · exact ih h g hg
       · simp at h
+    | redirect =>
+      simp only [runGate] at h
+      split at h
+      · simp at h
+      · rename_i hf
+        intro g hg
+        rw [beforeUpstream_cons _ _ (by decide)] at hg
+        rcases List.mem_cons.mp hg with rfl | hg
+        · simpa [passes] using hf
+        · exact ih h g hg
+
+/-- The conditions a request has met when it is answered with the route's redirect. -/
+def passesR (env : Env) : Step → Bool
+  | .lookup => env.found
+  | .access => !env.denied
+  | .auth => env.authorized
+  | .redirect => true
+  | .upstream => true
+
+theorem beforeRedirect_cons (s : Step) (ss : List Step) (h : s ≠ .redirect) :
+    beforeRedirect (s :: ss) = s :: beforeRedirect ss := by
+  cases s <;> first | exact absurd rfl h | rfl
+
+theorem runGate_redirected (env : Env) (ss : List Step) (c : Bool) (h : (runGate env ss c).1 = .redirected) :
+    ∀ g ∈ beforeRedirect ss, passesR env g = true := by
+  induction ss generalizing c with
+  | nil => simp [runGate] at h
+  | cons s ss ih =>
+    cases s with
+    | redirect => intro g hg; simp [beforeRedirect, List.takeWhile] at hg
+    | upstream =>
+      simp only [runGate] at h
+      intro g hg
+      rw [beforeRedirect_cons _ _ (by decide)] at hg
+      rcases List.mem_cons.mp hg with rfl | hg
+      · rfl
+      · exact ih _ h g hg
+    | lookup =>
+      simp only [runGate] at h
+      split at h
+      · rename_i hf
+        intro g hg
+        rw [beforeRedirect_cons _ _ (by decide)] at hg
+        rcases List.mem_cons.mp hg with rfl | hg
+        · simpa [passesR] using hf
+        · exact ih _ h g hg
+      · simp at h
+    | access =>
+      simp only [runGate] at h
+      split at h
+      · simp at h
+      · rename_i hf
+        intro g hg
+        rw [beforeRedirect_cons _ _ (by decide)] at hg
+        rcases List.mem_cons.mp hg with rfl | hg
+        · simpa [passesR] using hf
+        · exact ih _ h g hg
+    | auth =>
+      simp only [runGate] at h
+      split at h
+      · rename_i hf
+        intro g hg
+        rw [beforeRedirect_cons _ _ (by decide)] at hg
+        rcases List.mem_cons.mp hg with rfl | hg
+        · simpa [passesR] using hf
+        · exact ih _ h g hg
+      · simp at h
+
+/-- Appending one attempt to a history appends its verdict, computed from the file then in force. -/
+theorem runAuth_append_attempt (secrets : List (List Char × List Char)) (h : List AuthOp)
+    (c : Option (List Char × List Char)) :
+    runAuth secrets (h ++ [.attempt c]) = runAuth secrets h ++ [basicVerdict (fileAfter secrets h) c] := by
+  induction h generalizing secrets with
+  | nil => simp [runAuth, fileAfter]
+  | cons op h ih =>
+    cases op with
+    | attempt c' => simp [runAuth, fileAfter, ih]
+    | reload s => simp [runAuth, fileAfter, ih]
 
 end Fabio.Lemmas.C12
